@@ -54,7 +54,8 @@ GFull == <<
   VDy(FALSE, N(1), -1022, FALSE),                                                       \* least normal
   VDy(FALSE, N(1), -1074, FALSE), VDy(TRUE, N(1), -1074, FALSE),                        \* +- least subnormal
   VDy(FALSE, MSub(TwoM(52), N(1)), -1074, FALSE),                                       \* greatest subnormal
-  VBits(MInfBits), VBits(WithSign(TRUE, MInfBits)), VBits(QNaNBits) >>                  \* +inf -inf NaN
+  VBits(MInfBits), VBits(WithSign(TRUE, MInfBits)), VBits(QNaNBits),                    \* +inf -inf NaN
+  VBits(WithSign(TRUE, QNaNBits)) >>                                                    \* NaN with the sign bit set
 GQuick == <<
   VDy(FALSE, <<>>, 0, TRUE), VDy(TRUE, <<>>, 0, TRUE), VDy(FALSE, N(1), 0, TRUE), VDy(TRUE, N(5), -1, TRUE),
   VDy(FALSE, N(3), 0, TRUE), VDy(FALSE, N(1), -1, TRUE), VDec(FALSE, 1, 1),
@@ -138,7 +139,7 @@ ArithRecs(pid, a, b) ==
           LET st == BinStmts(op, forms[f], a, b, "_" \o pid \o "_" \o ToString(n) \o "_" \o ToString(f), "reportf")
               key == KeyBin(op, forms[f], a, b)
           IN [id |-> base \o "." \o forms[f], op |-> op, form |-> forms[f], stmts |-> st.stmts, frets |-> st.frets, irets |-> <<>>,
-              exp |-> exp, cat |-> cat, grp |-> base, key |-> key, relkey |-> RelKeyBin(op, forms[f], r),
+              exp |-> exp, rep |-> "reportf", cat |-> cat, grp |-> base, key |-> key, relkey |-> RelKeyBin(op, forms[f], r),
               solo |-> (r.k = "err" \/ key # "")]]])
 
 \* comparisons: predicted where IEEE numeric order and every total order extending it agree, i.e. for two non-NaN
@@ -158,7 +159,7 @@ CmpRecs(pid, a, b) ==
      IN [f \in 1..Len(forms) |->
           LET st == BinStmts(op, forms[f], a, b, "_" \o pid \o "_c" \o ToString(n) \o "_" \o ToString(f), "reportb")
           IN [id |-> base \o "." \o forms[f], op |-> op, form |-> forms[f], stmts |-> st.stmts, frets |-> st.frets, irets |-> <<>>,
-              exp |-> exp, cat |-> op \o "|" \o (IF exp.k = "any" THEN "law-only" ELSE "predicted"), grp |-> base, key |-> "", relkey |-> "",
+              exp |-> exp, rep |-> "reportb", cat |-> op \o "|" \o (IF exp.k = "any" THEN "law-only" ELSE "predicted"), grp |-> base, key |-> "", relkey |-> "",
               solo |-> FALSE, cmp |-> [x |-> a.s, y |-> b.s]]]])
 
 \* ---- one-operand operations
@@ -198,16 +199,16 @@ UnRecs(pid, a) ==
           IN [id |-> base \o "." \o forms[f], op |-> fn, form |-> forms[f],
               stmts |-> (IF forms[f] = "UV" THEN "let a" \o s \o " = getf()\n" ELSE "") \o rep \o "(" \o call \o ")\n",
               frets |-> (IF forms[f] = "UV" THEN <<a.s>> ELSE <<>>), irets |-> <<>>,
-              exp |-> ExpOf(r), cat |-> fn \o "|" \o OutCat(r), grp |-> base, key |-> key, relkey |-> "", solo |-> (key # "")]]])
+              exp |-> ExpOf(r), rep |-> rep, cat |-> fn \o "|" \o OutCat(r), grp |-> base, key |-> key, relkey |-> "", solo |-> (key # "")]]])
 
 \* the literal itself: every float literal denotes the correctly rounded binary64 of its decimal value
 LitRecs(pid, a) ==
   IF a.lit = "" THEN <<>> ELSE
   << [id |-> pid \o ".lit.L", op |-> "lit", form |-> "L", stmts |-> "reportf(" \o a.lit \o ")\n", frets |-> <<>>, irets |-> <<>>,
-      exp |-> [k |-> "eq", args |-> <<a.s>>], cat |-> "lit|direct", grp |-> pid \o ".lit", key |-> "", relkey |-> "", solo |-> FALSE],
+      exp |-> [k |-> "eq", args |-> <<a.s>>], rep |-> "reportf", cat |-> "lit|direct", grp |-> pid \o ".lit", key |-> "", relkey |-> "", solo |-> FALSE],
      [id |-> pid \o ".lit.V", op |-> "lit", form |-> "V", stmts |-> "let l_" \o pid \o " = " \o a.lit \o "\nreportf(l_" \o pid \o ")\n",
       frets |-> <<>>, irets |-> <<>>,
-      exp |-> [k |-> "eq", args |-> <<a.s>>], cat |-> "lit|let", grp |-> pid \o ".lit", key |-> "", relkey |-> "", solo |-> FALSE] >>
+      exp |-> [k |-> "eq", args |-> <<a.s>>], rep |-> "reportf", cat |-> "lit|let", grp |-> pid \o ".lit", key |-> "", relkey |-> "", solo |-> FALSE] >>
 
 PairRec(pid, a, b, withUn) ==
   [id |-> pid, a |-> a.s, b |-> b.s, alit |-> a.lit, blit |-> b.lit,
@@ -226,10 +227,10 @@ IntOperands == << Zero, Big(1), Big(-1), Big(123456789),
 FromIntRecs(pid, n, i) ==
   LET r == FFromInt(n)  base == pid \o ".float_from_int" \o ToString(i) IN
   << [id |-> base \o ".UL", op |-> "float_from_int", form |-> "UL", stmts |-> "reportf(float_from_int(" \o ToDec(n) \o "))\n",
-      frets |-> <<>>, irets |-> <<>>, exp |-> ExpOf(r), cat |-> "float_from_int|" \o OutCat(r), grp |-> base, key |-> "", relkey |-> "", solo |-> FALSE],
+      frets |-> <<>>, irets |-> <<>>, exp |-> ExpOf(r), rep |-> "reportf", cat |-> "float_from_int|" \o OutCat(r), grp |-> base, key |-> "", relkey |-> "", solo |-> FALSE],
      [id |-> base \o ".UV", op |-> "float_from_int", form |-> "UV",
       stmts |-> "let n_" \o pid \o "_" \o ToString(i) \o " = geti()\nreportf(float_from_int(n_" \o pid \o "_" \o ToString(i) \o "))\n",
-      frets |-> <<>>, irets |-> <<ToDec(n)>>, exp |-> ExpOf(r), cat |-> "float_from_int|" \o OutCat(r), grp |-> base, key |-> "", relkey |-> "", solo |-> FALSE] >>
+      frets |-> <<>>, irets |-> <<ToDec(n)>>, exp |-> ExpOf(r), rep |-> "reportf", cat |-> "float_from_int|" \o OutCat(r), grp |-> base, key |-> "", relkey |-> "", solo |-> FALSE] >>
 ExtraRec ==
   [id |-> "extra", a |-> "", b |-> "", alit |-> "", blit |-> "", kind |-> "extra",
    ops |-> Flatten([i \in 1..Len(ExtraLits) |-> LitRecs("x" \o ToString(i), ExtraLits[i])
@@ -262,7 +263,10 @@ RandPair(u) ==
               [] kind = "int" -> RoundQ(Pick(BOOLEAN), N(Pick(1..12)), MOne, Pick({0, 0, -1})).bits
               [] kind = "sub" -> Compose(Pick(BOOLEAN), Pick(1023 - 3 .. 1023 + 60), RandFrac(u + 1))
               [] kind = "big" -> Compose(Pick(BOOLEAN), Pick(1000..1060), RandFrac(u + 1))
-  IN [kind |-> kind, a |-> WithSpell(a0), b |-> WithSpell(b0)]
+      \* a random pattern that is a NaN is replaced by a default quiet NaN of the same sign: payload propagation is not modelled
+      Canon(bits) == LET v == Decode(bits) IN IF IsNaN(v) THEN WithSign(v.neg, QNaNBits) ELSE bits
+      n0 == LET m == Rand64(u + 2) IN Mk(Pick(BOOLEAN), MDivMod(m, TwoM(Pick(1..63)))[2])
+  IN [kind |-> kind, a |-> WithSpell(Canon(a0)), b |-> WithSpell(Canon(b0)), n |-> n0]
 
 \* ------------------------------------------------------------------ state machine = enumeration
 Init == lvl = 0 /\ gi = 0 /\ gj = 0 /\ rp = <<>>
@@ -281,7 +285,8 @@ Emit ==
          JsonSerialize(OutFile(pid), PairRec(pid, G[gi], G[gj], gj = 1) @@ [kind |-> "grid"])
     [] lvl = 2 /\ Mode = "random" ->
          LET pid == "r" \o IOEnv.SHARD \o "_" \o ToString(TLCGet("stats").traces) IN
-         JsonSerialize(OutFile(pid), PairRec(pid, rp.a, rp.b, TRUE) @@ [kind |-> rp.kind])
+         LET pr == PairRec(pid, rp.a, rp.b, TRUE) IN
+         JsonSerialize(OutFile(pid), [pr EXCEPT !.ops = @ \o FromIntRecs(pid, rp.n, 0)] @@ [kind |-> rp.kind])
 
 \* anchors: bit patterns of well-known values (IEEE-754 binary64 encoding)
 ASSUME MDec(VDy(FALSE, N(1), 0, FALSE).bits) = "4607182418800017408"            \* 1.0  = 0x3FF0000000000000
